@@ -461,8 +461,44 @@ def handleCF (pF nodesF ebF : String) : String :=
         " g=" ++ groupsField rs ++ "|" ++ groupsField errs
   | _, _, _ => "bad-op"
 
+/-! op `ms`: several sites on one server
+
+    ms <H> <P> <sites>       sites = S (HOST nodes eblocks)^S    HOST 0 = no host (last, once), k = host k-1
+  answer  `ms err` | `ms s=<status|-> g=<groups of the primary routes>|<groups of the error routes>`   -/
+
+partial def pSite : P Site := fun toks => do
+  let (h, toks) ← pNat toks
+  if h > 3 then none else
+  let (nodes, toks) ← pNodes toks
+  let (b, toks) ← pNat toks
+  let (ebs, toks) ← pMany pEBlock b toks
+  pure (⟨if h == 0 then none else some (h - 1), nodes, ebs⟩, toks)
+
+/-- hosted sites first (distinct hosts), the site without a host last and at most once -/
+def sitesOrdered : List Site → Bool
+  | [] => true
+  | s :: rest => (s.host.isSome || rest.isEmpty) && sitesOrdered rest
+
+def handleMS (hF pF sitesF : String) : String :=
+  match natTok hF, natTok pF,
+      (match (do let (n, toks) ← pNat (sitesF.splitOn ","); pMany pSite n toks) with
+        | some (ss, []) => some ss | _ => none) with
+  | some h, some p, some sites =>
+    if h ≥ 3 || p ≥ 6 || sites.isEmpty || sites.length > 3 || !sitesOrdered sites ||
+        !distinct (sites.filterMap (·.host)) ||
+        !sites.all (fun s => siteBodyOk s.nodes && s.ebs.length ≤ 2 &&
+          s.ebs.all (fun b => b.args.length ≤ 3 && siteBodyOk b.body)) then "bad-op" else
+    match adaptSites sites with
+    | none => "ms err"
+    | some (rs, hasErrs, errs) =>
+      let res := serve rs hasErrs errs ⟨0, h, p, 0, [], none, none, p, []⟩
+      "ms s=" ++ (match res.status with | none => "-" | some c => toString c) ++
+        " g=" ++ groupsField rs ++ "|" ++ groupsField errs
+  | _, _, _ => "bad-op"
+
 def handle : List String → String
   | ["he", s, p, blocks] => handleHE s p blocks
+  | ["ms", h, p, sites] => handleMS h p sites
   | ["cf", p, nodes, ebs] => handleCF p nodes ebs
   | ["hd", p, nodes] => handleHD p nodes
   | [routes, errs, req] => handleCase routes errs req "0"
@@ -531,6 +567,8 @@ def witnessLines : List String :=
     encCase wStaleRoutes true wStaleErrs wReq,
     encCase wStaleUriRoutes false [] wReq,
     encCase (wOrderRoutes wSetA) false [] wReq,
-    encCase (wOrderRoutes wSetB) false [] wReq ]
+    encCase (wOrderRoutes wSetB) false [] wReq,
+    -- AdaptProps.site_error_reaches_other_sites_handle_errors
+    "ms 0 1 2,1,1,f,404,0,0,1,r,299,1,0,1,r,211" ]
 
 end CaddyModel.C05
